@@ -63,21 +63,21 @@ type waitState struct {
 
 type world struct {
 	// shadow model of knob slash_keys (keys identified up to leading slashes)
-	mN          *model
-	mNok        bool
-	shadowRan   bool
-	shadowMsg   string
-	stopJudging bool
+	mN           *model
+	mNok         bool
+	shadowRan    bool
+	shadowMsg    string
+	stopJudging  bool
 	braceLiteral bool
-	c           *sim.Case
-	e           *sim.Env
-	mode        string
-	be          *backend.Backend
-	tasks       []*taskState
-	nDone       int
-	m           *model
-	hist        []histOp
-	allVers     map[string]string // version -> first writer description (C02 b)
+	c            *sim.Case
+	e            *sim.Env
+	mode         string
+	be           *backend.Backend
+	tasks        []*taskState
+	nDone        int
+	m            *model
+	hist         []histOp
+	allVers      map[string]string // version -> first writer description (C02 b)
 	// C07
 	states     map[string][]keyState
 	mutTok     zsimrt.Mutex
